@@ -215,8 +215,14 @@ def stop_base(rng: random.Random, i: int) -> dict:
     """Base scenarios for stop()/cancel placement: backlog, sleeping handlers, inline awaits, sync-busy
     handlers, handlers that dispatch late (during stop()'s grace period), a second bus whose handler
     awaits a child afterwards."""
-    c = cfg(nb=(1, 2), levels=3, p_lazy=0.2, p_raise=0.03, p_busy=0.1, prog_len=(1, 4), handlers_per=(1, 1, 2), n_actors=(2, 3), actor_ops=(2, 6), actor_await=0.3, jitter=False, p_wild=0.05)
+    c = cfg(nb=(1, 3), levels=3, p_lazy=0.2, p_raise=0.03, p_busy=0.1, prog_len=(1, 4), handlers_per=(1, 1, 2), n_actors=(2, 3), actor_ops=(2, 6), actor_await=0.3, jitter=False, p_wild=0.05)
     sc = random_scenario(rng, c)
+    if len(sc['buses']) == 3 and rng.random() < 0.7:
+        # a long in-handler await on bus 0 while the other two buses each receive work: their run loops dequeue it and
+        # block on the global lock, which is where stop() / cancellation of one of them can arrive
+        sc['handlers'].append({'bus': 0, 'pat': 1, 'kind': 'async', 'prog': [['disp', 2, 0, 'await', None, {}]]})
+        sc['handlers'].append({'bus': 0, 'pat': 2, 'kind': 'async', 'prog': [['sleep', rng.choice([0.3, 1.0])]]})
+        sc['actors'].append([['disp', 1, 0, 'fire', rng.choice([0.05, 0.15]), {}], ['disp', 0, 1, 'fire', rng.choice([0, 0.05]), {}], ['disp', 0, 2, 'fire', 0, {}], ['disp', 1, 1, 'fire', 0.1, {}], ['disp', 1, 2, 'fire', 0, {}]])
     # make sure some handler dispatches late and some handler on another bus awaits later
     nb = len(sc['buses'])
     sc['handlers'].append({'bus': 0, 'pat': 0, 'kind': 'async', 'prog': [['sleep', rng.choice([0.05, 0.1, 0.15, 0.3])], ['disp', 2, 0, rng.choice(['fire', 'await']), None, {}], ['sleep', 0.05], ['disp', 2, 0, 'fire', None, {}]]})
@@ -313,9 +319,16 @@ def expect_base(rng: random.Random, i: int) -> dict:
             m = rng.choice([2, 3, 4])
             return ['raise', m, rng.randrange(m)]
         return rng.choice([['true'], ['false']])
+    pinned = rng.random() < 0.3  # also a class that pins its own event_type (wire name != class name)
+    if pinned:
+        for b in range(nb):
+            hs.append({'bus': b, 'pat': rng.choice([6, 'PinnedWire6', 'PinnedWire6']), 'kind': 'async', 'prog': [['sleep', rng.choice([0, 0.05])]]})
+        actors.append([['sleep', rng.choice([0, 0.05])]] + [['disp', 6, rng.randrange(nb), 'fire', rng.choice([0.01, 0.1, 0.3]), {}] for _k in range(rng.randint(2, 5))])
     for _ in range(n_exp):
         t = rng.randrange(3)
-        spec = {'type': t if rng.random() < 0.6 else f'E{t}', 'include': pred(), 'exclude': pred() if rng.random() < 0.5 else None,
+        if pinned and rng.random() < 0.5:
+            t = 6
+        spec = {'type': (t if rng.random() < 0.6 else ('PinnedWire6' if t == 6 else f'E{t}')), 'include': pred(), 'exclude': pred() if rng.random() < 0.5 else None,
                 'predicate': pred() if rng.random() < 0.3 else None, 'timeout': rng.choice([0.05, 0.2, 0.5, 1.0, 3.0])}
         actors.append([['sleep', rng.choice([0, 0, 0.02, 0.1, 0.4])], ['expect', rng.randrange(nb), spec]])
     return {'seed': rng.randrange(1 << 30), 'buses': buses, 'fwd': [], 'handlers': hs, 'actors': actors, 'n_exp': n_exp, 'W': 4.0}
@@ -379,6 +392,14 @@ def wal_scenario(rng: random.Random, i: int) -> dict:
     if rng.random() < 0.35:
         n = sorted(rng.sample(range(1, 12), rng.randint(1, 3)))
         sc['wal_fault'] = {'kind': rng.choice(['open', 'write']), 'n': n}
+    if rng.random() < 0.35:
+        # two WAL steps of one bus in flight at once: sibling handlers on a parallel bus each dispatch and await a child there
+        sc['buses'][0]['par'] = True
+        sc['buses'][0]['wal'] = sc['buses'][0].get('wal') or True
+        for _k in range(rng.randint(2, 3)):
+            sc['handlers'].append({'bus': 0, 'pat': 0, 'kind': 'async', 'prog': [['disp', 3, 0, 'await', rng.choice([None, 0]), {}]]})
+        sc['handlers'].append({'bus': 0, 'pat': 3, 'kind': 'async', 'prog': []})
+        sc['actors'].append([['disp', 0, 0, 'await', 0.05, {'payload': rand_payload(rng)}], ['disp', 0, 0, 'await', 0, {}]])
     return sc
 
 
